@@ -216,6 +216,18 @@ Theorem C04_arange_count : forall start stop p q, p <> 0 ->
 Proof. exact arange_len_spec. Qed.
 Print Assumptions C04_arange_count.
 
+(* unsigned (size_t) start / stop: the count is NumPy's for increasing ranges; for a decreasing range the unsigned
+   difference wraps and the range comes out empty *)
+Theorem C04_arange_count_unsigned_on_domain : forall start stop p q, p <> 0 -> 0 <= start <= stop -> stop < 2 ^ 64 ->
+  arange_len_unsigned start stop p q = Val (np_arange_len start stop p q).
+Proof. exact arange_len_unsigned_spec. Qed.
+Print Assumptions C04_arange_count_unsigned_on_domain.
+
+Theorem C04_arange_unsigned_decreasing_refuted : exists start stop p,
+  0 <= stop < start /\ p < 0 /\ arange_len_unsigned start stop p 1 <> Val (np_arange_len start stop p 1).
+Proof. exists 5, 0, (-2). split; [lia|]. split; [lia|]. vm_compute. discriminate. Qed.
+Print Assumptions C04_arange_unsigned_decreasing_refuted.
+
 Theorem C04_linspace_element : forall start stop num endpoint i, 1 <= num -> 0 <= i < num ->
   let m := linspace_elem start stop num endpoint i in
   let sp := np_linspace_elem start stop num endpoint i in
